@@ -329,6 +329,11 @@ where
 
     async fn ready(&self, dependencies: &[ID]) -> Result<bool, Self::Error> {
         self.tx(async |tx| {
+            // Dependencies are a set: the same id can occur more than once in the list (repeated
+            // by the caller or returned once per pending row by `get_next_pending`), while the
+            // query counts every matching "ready" row only once.
+            let unique: HashSet<String> = dependencies.iter().map(|dep| dep.to_string()).collect();
+
             let sql = format!(
                 "
                 SELECT
@@ -337,7 +342,7 @@ where
                     orderer_ready_v1
                 WHERE id IN ({})
                 ",
-                dependencies
+                unique
                     .iter()
                     .map(|dep| format!("'{dep}'"))
                     .collect::<Vec<String>>()
@@ -345,7 +350,7 @@ where
             );
 
             let result: (i64,) = query_as(&sql).fetch_one(&mut **tx).await?;
-            Ok(result.0 as usize == dependencies.len())
+            Ok(result.0 as usize == unique.len())
         })
         .await
     }
